@@ -186,9 +186,14 @@ def target(**kw):
 # ---------------------------------------------------------------------------
 INVOKED = []        # (job key, clock reading at invocation), per path
 _CLOCK = [None]
+_ACTS = [None]
 
 
 def target(**kw):
+    # entering the job's function is a point where the process may die
+    # (after the store operations that precede it have committed)
+    if _ACTS[0] is not None:
+        _ACTS[0].hand_off('invoke')
     INVOKED.append((kw.get('tag'), _CLOCK[0].now()))
 
 
@@ -273,6 +278,9 @@ def _c13_3_case(n_pollers, polls, run_afters, crash_budget, max_waits,
         db = minidb.MiniDB()
         acts = A.Actors(max_steps=400, crash_budget=crash_budget)
         A.attach(db, acts)
+        # (only where a crash can be delivered there: without one the extra
+        # hand-off adds interleavings but no behaviour)
+        _ACTS[0] = acts if crash_budget else None
         if run_afters == 'sym':
             run_after = fresh_int('run_after', 0, None)
         else:
